@@ -434,11 +434,16 @@ def check_rwp(line, meta, h, d, dq, stats):
 
 def run(ctx):
     ctx.proof_stage()
+    if not ctx.quick():
+        bad = vlib.leanchecker(['BFL.Props.C07', 'BFL.Proofs.Resample', 'BFL.Proofs.ResampleList', 'BFL.Proofs.ResampleLog', 'BFL.Proofs.ResampleSet', 'BFL.Proofs.ResamplePrior', 'BFL.Model.Resample'])
+        ctx.coverage["leanchecker"] = "failed: %s" % bad if bad else "all modules re-checked"
+        if bad:
+            ctx.violation("leanchecker", "leanchecker rejects compiled modules: %s" % bad, {"modules": bad}, no_input=True)
     binary = vlib.build_harness("h_pf")
     g = ctx.gen("pf")
     r = g.r
-    n_rs = ctx.n(500, 12000)
-    n_rwp = ctx.n(300, 6000)
+    n_rs = ctx.n(1200, 12000)
+    n_rwp = ctx.n(700, 6000)
     cases = []
     corpus = vlib.VERIF / "corpus" / "C07" / "cases.txt"
     if corpus.exists():
